@@ -158,7 +158,7 @@ Print Assumptions C09_closure_refuted.
     inline, or a by-name reference) is the pair (name, value); written back with tuple notation it selects the same
     index -- no earlier branch answers to that name -- and the inner value is encoded under that branch again *)
 Theorem C09_closure_partial : forall f o e bs i b a pv0 pv,
-  disable_tuple o = false -> nthZ bs i = Some b -> named_branch b = true ->
+  disable_tuple o = false -> nthZ bs i = Some b -> named_branch e b = true ->
   (forall k c, 0 <= k < i -> nthZ bs k = Some c -> branch_name c <> branch_name b) ->
   py_of ro_named e b a = Some pv0 -> elab f o e b pv0 = WOk a ->
   py_of ro_named e (SUnion bs) (AUnion i a) = Some pv ->
